@@ -42,6 +42,8 @@ type caseDesc struct {
 	// Secret (udp only): the endpoint is in addition protected by a shared secret, equal on both ends; certificates
 	// must be judged exactly as without it
 	Secret bool `json:"udp_shared_secret,omitempty"`
+	// Spelling: the upstream address uses the other documented spelling of its scheme (wss for https)
+	Spelling string `json:"upstream_scheme_spelling,omitempty"`
 	// Bundle: the CA option of both ends holds two certificates (an unrelated CA first, the issuing CA second)
 	Bundle bool `json:"ca_option_is_a_bundle_of_two,omitempty"`
 }
@@ -75,7 +77,7 @@ func runCase(d caseDesc) (established bool, targetBytes int, problem string, inc
 	}
 	sc := vlib.ServerCertFor(d.ServerCert, certHost)
 	cfg := vlib.PairConfig{Carrier: d.Carrier, ServerCert: &sc, ClientCA: pki.CA.CertPEM, ClientInsecure: d.Insecure,
-		RequireClient: d.Require, ServerCA: pki.CA.CertPEM, HostSpelling: host, MustSecure: true,
+		RequireClient: d.Require, ServerCA: pki.CA.CertPEM, HostSpelling: host, MustSecure: true, ClientScheme: d.Spelling,
 		Channels:  []vlib.ChannelSpec{{Name: "data", Target: tgt.URL()}},
 		Listeners: []vlib.ListenerSpec{{Channel: "data"}}}
 	if d.Carrier == vlib.CarDNS {
@@ -184,6 +186,16 @@ func allCases(withDNS bool) []caseDesc {
 							}
 						}
 					}
+				}
+			}
+		}
+	}
+	// the TLS websocket under its other documented spelling: the same verdicts as for https
+	for _, sc := range []string{"match", "wronghost", "untrusted", "expired", "platform"} {
+		for _, ins := range []bool{false, true} {
+			for _, cc := range []string{"none", "own", "platform"} {
+				for _, req := range []bool{false, true} {
+					out = append(out, caseDesc{Carrier: vlib.CarHTTPS, Spelling: "wss", ServerCert: sc, Insecure: ins, ClientCert: cc, Require: req, Host: "localhost"})
 				}
 			}
 		}
